@@ -80,11 +80,22 @@ func sFiller(r *rand.Rand, vocab []string, n int) string {
 	return strings.Join(w, " ")
 }
 
+// sCount counts ALL occurrences of sub in s, overlapping ones included (a value made
+// of repeated tokens, or a filler word ending in the value's first token, can create
+// shifted occurrences that make the construction ambiguous).
 func sCount(s, sub string) int {
 	if sub == "" {
 		return 0
 	}
-	return strings.Count(s, sub)
+	n := 0
+	for i := 0; ; {
+		j := strings.Index(s[i:], sub)
+		if j < 0 {
+			return n
+		}
+		n++
+		i += j + 1
+	}
 }
 
 func sFmtMatches(ms Matches) string {
@@ -145,6 +156,24 @@ func TestVerifC13(t *testing.T) {
 				e.count("addvalue_calls", 1)
 				vals = append(vals, v)
 				keys = append(keys, key)
+			}
+			// a near-duplicate of a long value under a key that sorts BEFORE the original's
+			// (registered last so that the original keeps its key): ranking ties must not
+			// cost the verbatim copy its place
+			if r.Intn(3) == 0 {
+				for i, v := range vals {
+					w := strings.Fields(v)
+					if len(w) >= 30 {
+						w[len(w)/2] += "x" // one character: well under 1 % of the value
+						nd := strings.Join(w, " ")
+						key := "a" + keys[i] // "ak3" < "k3"
+						if err := c.AddValue(key, nd); err == nil {
+							vals = append(vals, nd)
+							keys = append(keys, key)
+						}
+						break
+					}
+				}
 			}
 			// domain: none of the (normalised) values occurs inside another
 			normV := make([]string, len(vals))
@@ -227,8 +256,16 @@ func TestVerifC13(t *testing.T) {
 					return // another value occurs verbatim as well: outside this case's oracle
 				}
 			}
-			if second >= 0 && sCount(normU, normV[second]) != 1 {
-				return
+			if second >= 0 {
+				if sCount(normU, normV[second]) != 1 {
+					return
+				}
+				// the two occurrences must not touch or overlap (values made of repeated
+				// tokens can occur across the seam): otherwise the construction is ambiguous
+				o1, o2 := strings.Index(normU, normV[pi]), strings.Index(normU, normV[second])
+				if o1 < o2+len(normV[second])+1 && o2 < o1+len(normV[pi])+1 {
+					return
+				}
 			}
 			ms := c.MultipleMatch(unknown)
 			e.count("multiplematch_calls", 1)
